@@ -23,7 +23,15 @@ Parts
                handed to the encoder (longer than Rx for the ragged words)
   ber.counter  both BER_analizer('counter') on plain sequences: every way of flipping k in {1,2,3}
                bits at positions from a small set -> exactly k/n, 0 flips -> exactly 0, all flipped
-               -> exactly 1; Tx equal to Rx in length and Tx longer by 1..3 bits (n = compared bits)
+               -> exactly 1; Tx equal to Rx in length and Tx longer by 1..3 bits (n = compared bits);
+               every pair of containers (binary_sequence, str, str with separators, list, tuple, ndarrays)
+
+Hardening pass (input classes, see notes/C03.md "Hardening pass"): three "notation" axes in the lattice -
+`bits` (container in which the word is handed to DAC / PPM_ENCODER and later to the counter), `gv` (call form
+of the grid configuration incl. non-integer fs/R and a reconfigured grid), `num` (Python int / numpy scalar
+form of every scalar argument); parts link.short (shortest legal records) and link.long (127..8193 slots);
+records beyond GET_EYE's nslots for the packaged routines; ppm.DSP threshold= / decision spelling / ndarray
+input / numpy M; structured PPM data words; zero-noise carriers, extreme launch powers, dispersion at 0.99 %.
 """
 from __future__ import annotations
 import itertools
@@ -46,7 +54,7 @@ AXES = [
     ('Vpi', [5.0, 2.0]),
     ('loss', [0.0, 3.0]),
     ('ER', [26.0, 10.0, 40.0]),
-    ('launch', [0.0, -20.0, 10.0]),
+    ('launch', [0.0, -20.0, 10.0, -50.0, 20.0]),          # dBm; the last two (10 nW, 100 mW) are "thin" values, see OPTION_VALUES
     ('r', [1.0, 0.5]),
     ('RL', [50.0, 1000.0]),
     ('bwf', [0.75, 0.7, 2.0]),          # PD bandwidth in units of the slot rate R
@@ -54,13 +62,16 @@ AXES = [
     # 2pol-rot: as 2pol, then a lossless Jones rotation of the modulated field to the -45 degree linear state
     #           (Ex, Ey) = (E, -E)/sqrt(2) so that BOTH rows are populated at the PD (harness side, unitary).
     # 2pol-y: as 2pol, but the modulator is told to keep the y row (MZM(pol='y'), the block zeroes x).
-    ('layout', ['1pol', '2pol', '2pol-rot', '2pol-y']),
+    # 1pol-n0 / 2pol-n0: as 1pol / 2pol with an all-zero noise array attached to the carrier (noise "present" but switched off: the
+    #           blocks then carry a noise field through the link and PD evaluates the signal-noise beat terms, all exactly zero)
+    ('layout', ['1pol', '2pol', '2pol-rot', '2pol-y', '1pol-n0', '2pol-n0']),
     # accumulated |beta2*L| = 0.9 % of T_slot^2, both signs, as DM(D) or FIBER(L, beta2, alpha=0.2, gamma=0)
     # documented alternative call forms of the same channel (same field expected, the link oracle is unchanged):
     #   dmH    DM(m, D, retH=True) -> (field, H): the caller also asks for the frequency response and keeps the field
     #   fiberD FIBER(m, L, beta_2=.) with every other argument left at its default (alpha = 0, i.e. lossless) and
     #          show_progress=True (progress bar written to a discarded stderr)
-    ('chan', ['none', 'dm+', 'dm-', 'fiber+', 'fiber-', 'dmH+', 'dmH-', 'fiberD+', 'fiberD-']),
+    #   dmX    DM at the edge of the quantifier: |beta2*L| = 0.99 % of T_slot^2 (< 1 %)
+    ('chan', ['none', 'dm+', 'dm-', 'fiber+', 'fiber-', 'dmH+', 'dmH-', 'fiberD+', 'fiberD-', 'dmX+', 'dmX-']),
     # optional arguments of the transmitter blocks that the plain link never passes:
     #   dac-bw   DAC(BW=.)  drive low-pass, min(2R, 0.4 fs)   (a legal Bessel design needs BW < fs/2)
     #   mzm-bw   MZM(BW=.)  optical band-pass of full width min(4R, 0.8 fs)  (the block designs a low-pass at BW/2 < fs/2)
@@ -89,6 +100,7 @@ AXES = [
 NAMES = [a for a, _ in AXES]
 BASE = tuple(v[0] for _, v in AXES)
 DISP_FRACTION = 0.009
+DISP_EDGE = 0.0099
 
 
 def valid(cfg):
@@ -120,7 +132,9 @@ OPTION_VALUES = {('layout', '2pol-y'), ('chan', 'dmH+'), ('chan', 'dmH-'), ('cha
 # hardening pass: further call forms (same rule: quick k<=2, thorough k<=3) and the three "notation" axes, all of whose values
 # are option deviations
 NOTATION_AXES = ('bits', 'gv', 'num')
-OPTION_VALUES |= {('txopt', 'drive-nd'), ('pdopt', 'case')}
+OPTION_VALUES |= {('txopt', 'drive-nd'), ('pdopt', 'case'), ('layout', '1pol-n0'), ('layout', '2pol-n0')}
+# "thin" values of ordinary axes, combined like option deviations (quick k<=2): extreme launch powers, dispersion at 0.99 %
+OPTION_VALUES |= {('launch', -50.0), ('launch', 20.0), ('chan', 'dmX+'), ('chan', 'dmX-')}
 OPTION_VALUES |= {(a, v) for a, vals in AXES if a in NOTATION_AXES for v in vals[1:]}
 
 
@@ -356,11 +370,12 @@ def run_link(cfg, bits):
     else:
         v = DAC(txobj, Vout=fd(Vpi), pulse_shape=d['pulse'], **dac_kw)
     P = 1e-3 * 10 ** (d['launch'] / 10)                       # launch power in W
-    if d['layout'] == '1pol':
-        cw = optical_signal(np.full(n, P ** 0.5))
+    if d['layout'].startswith('1pol'):
+        cw = np.full(n, P ** 0.5)
     else:
         a = (P / 2) ** 0.5
-        cw = optical_signal(np.array([np.full(n, a), np.full(n, a)]))
+        cw = np.array([np.full(n, a), np.full(n, a)])
+    cw = optical_signal(cw, np.zeros_like(cw)) if d['layout'].endswith('-n0') else optical_signal(cw)
     mzm_kw = {}
     if tx != 'dac-bias':
         mzm_kw['bias'] = f(-Vpi)
@@ -376,9 +391,9 @@ def run_link(cfg, bits):
     ch = d['chan']
     if ch != 'none':
         T2 = (1e12 / Rq) ** 2                                  # slot period squared, ps^2
-        D = DISP_FRACTION * T2 * (1 if ch.endswith('+') else -1)
         kind = ch.rstrip('+-')
-        if kind == 'dm':
+        D = (DISP_EDGE if kind == 'dmX' else DISP_FRACTION) * T2 * (1 if ch.endswith('+') else -1)
+        if kind in ('dm', 'dmX'):
             m = DM(m, f(D))
         elif kind == 'dmH':
             out = DM(m, f(D), retH=True)
@@ -786,7 +801,16 @@ def run(ctx):
              f'plus every pair of deviations among the eye-shaping axes {[a for a, _ in EYE_AXES]} ({len(eye_tuples(2))} points'
              + (', first KMeans seed, no ragged words' if quick else f'; ook.dsp also every triple, {len(eye_tuples(3))} points') + ') '
              f'x KMeans seed alphabet {(0, 1) if quick else (0, 1, 2)}; ook.DSP(BW=min(2R, 0.4fs)) on the k<=1 configurations; '
-             f'on every decoded output both BER_analizer(counter) must give '
+             f'hardening pass: link.short = every word of length {short_lengths} whose waveform exceeds the 16-sample padding, link.long = '
+             f'seeded / single-1 / single-0 words of {long_lengths} slots, both on the k<=1 configurations; the notation axes '
+             f'{NOTATION_AXES} (container of the bit word incl. write-protected ndarrays, gv call form incl. non-integer fs/R, number '
+             f'form of every scalar) are option deviations; the comparison operator is asked with the threshold written as '
+             f'{THRESHOLD_FORMS}; ook.dsp additionally on records of {dsp_long_lengths} slots (GET_EYE nslots 4096 / 8192) and with '
+             f'BW written as {BW_FORMS}; ppm.dsp additionally with hard decision at an explicit midway threshold, decision strings in '
+             f'other letter case, the record as plain ndarray, M written as {M_FORMS}, the structured data words {STRUCTURED}, 1 and 3 '
+             f'symbols (soft only) and 8192/M+1 symbols; Tx of the counters = the very object handed to DAC / PPM_ENCODER; '
+             f'ber.counter also on every pair of containers {SEQ_FORMS} for (Tx, Rx) (Rx longer than Tx: recorded, not asserted). '
+             f'On every decoded output both BER_analizer(counter) must give '
              f'exactly 0 and exactly k/n (n = len(Rx) = compared bits; Tx = the data handed to the encoder, longer than Rx for ragged '
              f'words) for every flip set of size 1..3 over positions {FLIP_POS}; ber.counter repeats that on plain '
              f'sequences of length 2..127 with Tx longer than Rx by {TX_EXTRA}')
